@@ -2,6 +2,7 @@ import Pxv.Driver.Util
 import Pxv.Model.Order
 import Pxv.Model.Borrow
 import Pxv.Model.Stalemate
+import Pxv.Model.Complex
 open Lean Pxv.Driver
 
 namespace Pxv.CG
@@ -90,6 +91,12 @@ def handle (j : Json) : Json :=
       | .outOfFuel => Json.mkObj [("outOfFuel", boolJ true)])
     Json.mkObj [("r", "ok"), ("g", graphJ r.1), ("diags", Json.arr ds.toArray),
       ("stalemate", boolJ !(findStalemate g []).isEmpty), ("orderOk", boolJ ((order r.1).isSome))]
+  | some "cx", some g =>
+    -- ↔ `complex_borrow_check`; the request lists the edges so that, per destination, they are in insertion order
+    let r := complexCheck g
+    let ds := r.diags.map (fun (n, bl) => Json.mkObj [("node", Json.num (JsonNumber.fromNat n)), ("blocked", natListJson bl)])
+    Json.mkObj [("r", "ok"), ("g", graphJ r.g), ("diags", Json.arr ds.toArray), ("fuelOut", boolJ r.fuelOut),
+      ("finished", natListJson r.finished)]
   | some "order", some g =>
     match order g with
     | some σ => Json.mkObj [("r", "ok"), ("order", natListJson σ)]
